@@ -5,8 +5,9 @@ ROOT = os.path.dirname(os.path.abspath(__file__))
 props = [json.loads(l) for l in open(os.path.join(ROOT, "properties.jsonl"))]
 claimed = {}
 cd = os.path.join(ROOT, "claims.d")
+enabled = open(os.path.join(cd, "ENABLED")).read().split()   # the lead enables a claim once its check passes on /repo
 for f in sorted(os.listdir(cd)):
-    if f.endswith(".json"): claimed[f[:-5]] = json.load(open(os.path.join(cd, f)))
+    if f.endswith(".json") and f[:-5] in enabled: claimed[f[:-5]] = json.load(open(os.path.join(cd, f)))
 checks, na = [], []
 for p in props:
     pid = p["id"]
